@@ -6,6 +6,7 @@ import Holpy.C20.ProofsTy
 import Holpy.C20.ProofsParse
 import Holpy.C20.ProofsParseCond
 import Holpy.C20.ProofsParseWf
+import Holpy.C20.ProofsLex4
 /-
 C20 — property theorems (helper lemmas: Proofs.lean, ProofsSem.lean, ProofsParse.lean).
 `Exec` is the big-step semantics of Proofs.lean, `holds s e` is `evalE s e = some (.bool true)`,
@@ -125,18 +126,48 @@ example : parseCondToks [.id "a", .minus, .id "b", .minus, .id "c", .eqeq, .num 
     parseCondToks (toks (.bin .eq (.bin .sub (.var "a") (.bin .sub (.var "b") (.var "c"))) (.int 0))) =
       some (.bin .eq (.bin .sub (.var "a") (.bin .sub (.var "b") (.var "c"))) (.int 0)) := ⟨by decide, by decide⟩
 
-/-- The condition shown to the user, when read back, has the same value in every state as the
-condition computed. PARTIAL: stated on token sequences; the step from the printed string to the
-tokens (`lex (pp e) = toks e`, identifiers that are not keywords) is checked by the harness on
-every generated expression, not proved. -/
-theorem print_parse_sem_partial (e : Expr) (h : wfC e = true) :
-    ∃ e', parseCondToks (toks e) = some e' ∧ ∀ s, evalE s e' = evalE s e :=
-  ⟨normNeg e, parse_toks e h, fun s => evalE_normNeg s e⟩
+/-! ### … on strings
 
-example : parseCondToks (toks (.bin .le (.bin .mul (.bin .add (.var "a") (.int 1)) (.var "B")) (.un .neg (.var "b")))) =
-      some (.bin .le (.bin .mul (.bin .add (.var "a") (.int 1)) (.var "B")) (.un .neg (.var "b"))) ∧
-    evalE (fun _ => 2) (.bin .le (.bin .mul (.bin .add (.var "a") (.int 1)) (.var "B")) (.un .neg (.var "b"))) =
-      some (.bool false) := ⟨by decide, by decide⟩
+`pp e` is the string `str(e)`; `lex` is Lark's standard lexer for the grammar's terminals (white space
+skipped, CNAME / INT matched as long as possible, a CNAME equal to a keyword literal becomes the
+keyword, otherwise the longest literal); `namesOK e`: every variable name has the CNAME shape and is
+not a keyword (`nameOK`, decidable; the driver evaluates it on every generated name). -/
+
+/-- The lexer reads the printed form of a condition back as exactly the tokens of the printer. -/
+theorem lex_print (e : Expr) (hw : wfC e = true) (hn : namesOK e = true) : lex (pp e) = some (toks e) :=
+  lex_pp ((lexOK_of_wf e hn).2 hw)
+
+example : wfC (.bin .imp (.bin .lt (.var "a1") (.un .neg (.un .neg (.var "_b")))) (.un .not (.bool true))) = true ∧
+    namesOK (.bin .imp (.bin .lt (.var "a1") (.un .neg (.un .neg (.var "_b")))) (.un .not (.bool true))) = true ∧
+    pp (.bin .imp (.bin .lt (.var "a1") (.un .neg (.un .neg (.var "_b")))) (.un .not (.bool true))) = "a1 < --_b --> ~true" := by
+  decide
+
+/-- The same for arithmetic expressions (what is printed in assignments and as operands). -/
+theorem lex_print_arith (e : Expr) (hw : wfA e = true) (hn : namesOK e = true) : lex (pp e) = some (toks e) :=
+  lex_pp ((lexOK_of_wf e hn).1 hw)
+
+example : wfA (.bin .mul (.bin .add (.var "x") (.var "y")) (.fn2 .max (.var "x") (.var "while1"))) = true ∧
+    namesOK (.bin .mul (.bin .add (.var "x") (.var "y")) (.fn2 .max (.var "x") (.var "while1"))) = true := by decide
+
+/-- Printing a condition with (the fixed) `Op.__str__` and parsing the STRING with parser2 (lexer and
+grammar) gives back the same condition, up to the reading of negative constants. -/
+theorem print_parse_string (e : Expr) (hw : wfC e = true) (hn : namesOK e = true) : parseCond (pp e) = some (normNeg e) := by
+  simp only [parseCond, lex_print e hw hn, Option.bind]
+  exact parse_toks e hw
+
+example : parseCond (pp (.un .not (.bin .and (.bin .eq (.bin .sub (.bin .sub (.var "a") (.var "b")) (.var "c")) (.var "d")) (.bool true)))) =
+    some (.un .not (.bin .and (.bin .eq (.bin .sub (.bin .sub (.var "a") (.var "b")) (.var "c")) (.var "d")) (.bool true))) :=
+  print_parse_string _ (by decide) (by decide)
+
+/-- The condition shown to the user (a string), when parsed again, has the same value in every state
+as the condition computed. -/
+theorem print_parse_sem (e : Expr) (hw : wfC e = true) (hn : namesOK e = true) :
+    ∃ e', parseCond (pp e) = some e' ∧ ∀ s, evalE s e' = evalE s e :=
+  ⟨normNeg e, print_parse_string e hw hn, fun s => evalE_normNeg s e⟩
+
+/-- non-vacuity with a loop: every VC of `Ex.prog` is a `wfC` condition over identifiers, so its shown
+string parses back to it. -/
+example : ∀ v ∈ vcsOf Ex.inv Ex.prog Ex.post, wfC v = true ∧ namesOK v = true := by decide
 
 /-! ### `Sem` of library/hoare.json (Gen.lean is regenerated from the library on every run) -/
 
